@@ -61,6 +61,16 @@ def hermitian_cases(rng, n, quick):
     D = qx.zeros(n, n)
     for i in range(n): D[i][i] = Q(rng.randint(-3, 3))
     out.append(('diagonal', D, [D[i][i].w for i in range(n)]))
+    # exactly diagonal with DISTINCT entries in an order whose sorting permutation is not an involution (a rotation of the sorted order), and with ties
+    if n >= 3:
+        vals = [Fraction(2 * i - n) for i in range(n)]; rot = vals[1:] + vals[:1]
+        Dr = qx.zeros(n, n)
+        for i in range(n): Dr[i][i] = Q(rot[i])
+        out.append(('diagonal-rotated-order', Dr, list(rot)))
+        tie = [Fraction(0), Fraction(5), Fraction(-2), Fraction(5), Fraction(0)][:n] + [Fraction(7)] * max(0, n - 5)
+        Dt = qx.zeros(n, n)
+        for i in range(n): Dt[i][i] = Q(tie[i])
+        out.append(('diagonal-with-ties', Dt, list(tie)))
     out.append(('zero', qx.zeros(n, n), [Fraction(0)] * n))
     specs = [('simple', [Fraction(i + 1, 1) * (-1) ** i for i in range(n)]), ('repeated', [Fraction(2)] * (n // 2) + [Fraction(-1)] * (n - n // 2)),
              ('all-equal', [Fraction(3, 2)] * n), ('rank-one', [Fraction(3)] + [Fraction(0)] * (n - 1))]
